@@ -104,7 +104,7 @@ def oracle(R, findings):
         if not only_nl:
             if so == "remove" and lead != 0:
                 findings.append(("sof-remove", "nl_start_of_file=remove but the output starts with %d line break(s)" % lead))
-            if so == "force" and sm > 0 and lead != sm:
+            if so == "force" and lead != sm:
                 findings.append(("sof-force", "nl_start_of_file=force, min=%d but the output starts with %d line break(s)" % (sm, lead)))
             if so == "add" and sm > 0 and lead < sm:
                 findings.append(("sof-add", "nl_start_of_file=add, min=%d but the output starts with %d line break(s)" % (sm, lead)))
@@ -112,7 +112,7 @@ def oracle(R, findings):
             if last_ty == "NEWLINE" or tail == 0:
                 if eo == "remove" and tail != 0:
                     findings.append(("eof-remove", "nl_end_of_file=remove but the output ends with %d line break(s)" % tail))
-                if eo == "force" and em > 0 and tail != em:
+                if eo == "force" and tail != em:
                     findings.append(("eof-force", "nl_end_of_file=force, min=%d but the output ends with %d line break(s)" % (em, tail)))
                 if eo == "add" and em > 0 and tail < em:
                     findings.append(("eof-add", "nl_end_of_file=add, min=%d but the output ends with %d line break(s)" % (em, tail)))
@@ -139,6 +139,17 @@ def run(rep, build, tier, seed):
         return rep.finish(common.proof_status("C20", build))
     nc, ng = (50, 80) if tier == "quick" else (2033, 2500)
     cases = rc.generated_cases(r, ng, cfg_fn, dict(indent=4, blank_max=6, comments=True)) + rc.corpus_cases(r, nc)
+    # every value of the file-edge options x minima x inputs with and without blank lines at the edges (exhaustive)
+    core = b"int a;\n\n\n\nint f(void)\n{\n\n    return 1;\n\n}\n"
+    for pre, post in [(b"", b""), (b"\n\n", b"\n\n"), (b"\n", b""), (b"", b"\n\n\n")]:
+        for which in ("start", "end"):
+            for v in IARF:
+                for mn in (None, 0, 1, 2, 3):
+                    cfg = "nl_%s_of_file=%s\n" % (which, v) + ("" if mn is None else "nl_%s_of_file_min=%d\n" % (which, mn))
+                    for nm in ("", "nl_max=2\n"):
+                        if nm and mn is not None and mn > 2:
+                            continue
+                        cases.append(rc.Case("edge:%s:%s:%s:pre%d:post%d:%s" % (which, v, mn, len(pre), len(post), nm.strip()), "C", cfg + nm, pre + core + post))
     corr = rc.explore(rep, cases, oracle, tier, "render")
     rep.sample({"generated_config_example": cases[0].cfg_text, "input_head": cases[0].data[:160].decode("latin1")})
     return rc.finish(rep, build, "C20", corr, "correspondence Model/Render.v <-> output.cpp (emitted code points)",
